@@ -178,7 +178,8 @@ static void run_case(hctx* h, fcase* fc) {
     print_case(h, fc); h_call(h);
     int st[MAXSTEP + 2], nst = 0, st2[MAXSTEP + 2], nst2 = 0;
     if (write_file(fc, path, st, &nst) != 0) { fprintf(h->out, " | err=create\n"); h->n_lines++; return; }
-    write_file(fc, path2, st2, &nst2);
+    /* the second write: every other case through the FILE*-based carquet_writer_create_file (same bytes expected) */
+    g_write_via_stream = (fc->nsteps + fc->ncols) % 2; write_file(fc, path2, st2, &nst2); g_write_via_stream = 0;
     size_t fn, fn2; uint8_t* fb = slurp(path, &fn); uint8_t* fb2 = slurp(path2, &fn2);
     int same_twice = (fn == fn2 && memcmp(fb, fb2, fn) == 0);
     fprintf(h->out, " | st=");
@@ -615,6 +616,9 @@ static void run_bigfile(hctx* h, fcase* fc, unsigned long long gap, long bs) {
     if (fn < 12) { fprintf(h->out, " | err=small\n"); h->n_lines++; free(fb); unlink(path); return; }
     uint32_t flen = (uint32_t)fb[fn - 8] | ((uint32_t)fb[fn - 7] << 8) | ((uint32_t)fb[fn - 6] << 16) | ((uint32_t)fb[fn - 5] << 24);
     size_t fstart = fn - 8 - flen;
+    /* gap = 1: the length of the file lands inside [2^32 + 12, 2^32 + 12 + footer length) - a footer bound computed in 32 bits
+     * sees a file that is too short for its footer */
+    if (gap == 1) gap = (1ull << 32) + 12 + flen / 2 - fn;
     uint64_t small = digest_file(fc, path, fb, fn, 0, bs);
     int fd = open(big, O_RDWR | O_CREAT | O_TRUNC, 0600);
     int okw = fd >= 0 && pwrite(fd, fb, fstart, 0) == (ssize_t)fstart && pwrite(fd, fb + fstart, flen + 8, (off_t)(fstart + gap)) == (ssize_t)(flen + 8);
@@ -697,8 +701,8 @@ static void gen_batlate(hctx* h) {
         run_hdrtags(h, &fc, 1 + (long)h_below(h, 9)); free_case(&fc);
     }
     /* pages 2.5 GiB (and, thorough, 4 GiB + / 6.5 GiB) before the end of the file */
-    { static const unsigned long long gaps[] = { 2684354560ull, 4294967296ull + 4096, 6979321856ull };
-      for (int t = 0; t < (h->thorough ? 3 : 1); t++) {
+    { static const unsigned long long gaps[] = { 2684354560ull, 1ull, 4294967296ull + 4096, 6979321856ull };
+      for (int t = 0; t < (h->thorough ? 4 : 2); t++) {
           fcase fc; gen_case(h, &fc, 1);
           for (int c = 0; c < fc.ncols; c++) if (fc.cols[c].rep == 2) fc.cols[c].rep = 1;
           fc.page = 64 + (long)h_below(h, 100);
